@@ -277,6 +277,8 @@ struct Engine {
             return {h0, h1};
         }
         for (int i = 0; i < k; ++i) hes.push_back(get_halfedge(lv[i], lv[(i + 1) % k], poly && cfg.allow_dups));
+        // a self-loop edge inside a longer face: ... -> x, x -> x, x -> ... is still a closed loop
+        if (poly && cfg.allow_loops && rng.chance(1, 8)) { int i = (int)rng.below(k); hes.insert(hes.begin() + i, get_halfedge(lv[i], lv[i], false)); ctx.cls("face:with-inner-loop-edge"); }
         return hes;
     }
     int face_valence() {
@@ -736,6 +738,16 @@ struct Engine {
         rescan();
         VF_CHECK(s.nv == 0 && s.ne == 0 && s.nf == 0 && s.nc == 0, "oracle:clear.counts", "mesh not empty after clear");
     }
+    // reserve_*: capacity only - nothing observable may change (counts, definitions, property sizes and values)
+    void op_reserve() {
+        int kind = (int)rng.below(4); size_t cur = kind == 0 ? s.nv : kind == 1 ? s.ne : kind == 2 ? s.nf : s.nc;
+        size_t n = rng.chance(1, 3) ? rng.below(cur + 1) : cur + rng.below(2 * cur + 8);
+        static const char *nm[] = {"reserve_vertices", "reserve_edges", "reserve_faces", "reserve_cells"};
+        ctx.op(std::string(nm[kind]) + "(" + std::to_string(n) + ")");
+        ctx.cnt.add("op.reserve");
+        if (kind == 0) mesh.reserve_vertices(n); else if (kind == 1) mesh.reserve_edges(n); else if (kind == 2) mesh.reserve_faces(n); else mesh.reserve_cells(n);
+        rescan();
+    }
     void op_toggle_bu() {
         int k = (int)rng.below(4); bool on = rng.chance(cfg.full_bu_bias ? 3 : 1, cfg.full_bu_bias ? 4 : 2);
         static const char *nm[] = {"enable_vertex_bottom_up_incidences", "enable_edge_bottom_up_incidences", "enable_face_bottom_up_incidences", "enable_bottom_up_incidences"};
@@ -821,6 +833,8 @@ struct Engine {
     // ------------------------------------------------------------ user properties (C03)
     template <class T, class ET> void create_prop_t(int flavour) {
         std::string name = cfg.prop_prefix + std::to_string(prop_serial++);
+        // the name must be free for this type and kind (after an assignment the mesh may hold properties brought by the source)
+        while (mesh.template property_exists<T, ET>(name)) name = cfg.prop_prefix + std::to_string(prop_serial++) + "n";
         T def = Val<T>::make(rng);
         std::string lab = std::string(pkind_name(PKind<ET>::k)) + "/" + Val<T>::name() + "/" + (flavour == 0 ? "shared" : flavour == 1 ? "private" : "persistent");
         if (flavour == 0) props.push_back(std::make_unique<PropT<T, ET>>(mesh.template request_property<T, ET>(name, def), lab));
@@ -1020,6 +1034,7 @@ struct Engine {
             op_swap((int)rng.below(4)); return;
         }
         if ((r -= cfg.w_misc) < 0) {
+            if (rng.chance(1, 10)) { op_reserve(); return; }
             int k = (int)rng.below(12);
             if (cfg.allow_status_gc && rng.chance(1, 2)) { op_status_gc(); return; }
             if (k < 3 && cfg.allow_gc) op_gc();
